@@ -1138,7 +1138,9 @@ class ClassNode(AstNode, NamespaceMixin):
         fields = kwargs.get("fields", None)
         if fields is not None:
             if not isinstance(fields, dict):
-                raise TypeError("fields must be a dictionary")
+                raise RuntimeError(
+                    "fields for class '{}' must be a dictionary at line {}"
+                    .format(name, self.linenumber))
 
         if self.parse_keyword == "struct":
             self.wrap_as = self.options.wrap_struct_as
@@ -1516,6 +1518,10 @@ class FunctionNode(AstNode):
             for arg in ast.params:
                 name = arg.name
                 if name in attrs:
+                    if not isinstance(attrs[name], dict):
+                        raise RuntimeError(
+                            "attrs for argument '{}' must be a dictionary, not {!r}, at line {}"
+                            .format(name, attrs[name], self.linenumber))
                     arg.attrs.update(attrs[name])
         if "fattrs" in kwargs:
             ast.attrs.update(kwargs["fattrs"])
@@ -1528,6 +1534,10 @@ class FunctionNode(AstNode):
             for key, value in kwargs["fstatements"].items():
                 # value must be a dict
                 if key in ["c", "c_buf", "f", "py"]:
+                    if not isinstance(value, dict):
+                        raise RuntimeError(
+                            "fstatements '{}' must be a dictionary, not {!r}, at line {}"
+                            .format(key, value, self.linenumber))
                     # remove __line__?
                     self.fstatements[key] = util.Scope(None, **value)
 
@@ -2006,10 +2016,27 @@ def promote_wrap(node):
 ######################################################################
 
 
+def check_dictionary_fields(ddct, names):
+    """Check fields of a YAML dictionary which must be dictionaries.
+    options, format and fields may be blank (None).
+    """
+    for key in names:
+        if key in ddct and not isinstance(ddct[key], dict):
+            if ddct[key] is None and key in ["options", "format", "fields"]:
+                continue
+            raise RuntimeError(
+                "'{}' must be a dictionary, not {!r}, around line {}"
+                .format(key, ddct[key], ddct.get("__line__", "?")))
+
+
 def clean_dictionary(ddct):
     """YAML converts some blank fields to None,
     but we want blank.
     """
+    check_dictionary_fields(ddct, [
+        "options", "format", "fields",
+        "attrs", "fattrs", "fstatements", "splicer"])
+
     for key in ["cxx_header", "namespace"]:
         if key in ddct and ddct[key] is None:
             ddct[key] = ""
@@ -2022,7 +2049,7 @@ def clean_dictionary(ddct):
             if value is None:
                 ddct["default_arg_suffix"][i] = ""
 
-    if "format" in ddct:
+    if ddct.get("format", None):
         fmtdict = ddct["format"]
         for key in ["function_suffix"]:
             if key in fmtdict and fmtdict[key] is None:
@@ -2046,6 +2073,7 @@ def clean_dictionary(ddct):
                 raise RuntimeError(
                     "instantation must be defined for each dictionary in cxx_template"
                 )
+            check_dictionary_fields(dct, ["format", "options"])
             newlst.append(
                 TemplateArgument(
                     dct["instantiation"],
@@ -2083,6 +2111,7 @@ def clean_dictionary(ddct):
                     "decl must be defined for each dictionary in fortran_generic at line {}"
                     .format(linenumber)
                 )
+            check_dictionary_fields(dct, ["format", "options"])
             newlst.append(
                 FortranGeneric(
                     dct["decl"],
